@@ -663,6 +663,11 @@ class VectorObject2D(VectorObject, Planar, Vector2D):
 
         for k, v in kwargs.copy().items():
             kwargs.pop(k)
+            if _repr_momentum_to_generic.get(k, k) in kwargs:
+                raise TypeError(
+                    "duplicate coordinates (through momentum-aliases): "
+                    + repr(_repr_momentum_to_generic.get(k, k))
+                )
             kwargs[_repr_momentum_to_generic.get(k, k)] = v
 
         if not kwargs and azimuthal is not None:
@@ -1030,6 +1035,11 @@ class VectorObject3D(VectorObject, Spatial, Vector3D):
 
         for k, v in kwargs.copy().items():
             kwargs.pop(k)
+            if _repr_momentum_to_generic.get(k, k) in kwargs:
+                raise TypeError(
+                    "duplicate coordinates (through momentum-aliases): "
+                    + repr(_repr_momentum_to_generic.get(k, k))
+                )
             kwargs[_repr_momentum_to_generic.get(k, k)] = v
 
         if not kwargs and azimuthal is not None and longitudinal is not None:
@@ -1690,6 +1700,11 @@ class VectorObject4D(VectorObject, Lorentz, Vector4D):
 
         for k, v in kwargs.copy().items():
             kwargs.pop(k)
+            if _repr_momentum_to_generic.get(k, k) in kwargs:
+                raise TypeError(
+                    "duplicate coordinates (through momentum-aliases): "
+                    + repr(_repr_momentum_to_generic.get(k, k))
+                )
             kwargs[_repr_momentum_to_generic.get(k, k)] = v
 
         if (
